@@ -12,6 +12,7 @@ import InvProxy.Model.Relay
 import InvProxy.Model.ShimLife
 import InvProxy.Model.RespPath
 import InvProxy.Model.AppAuth
+import InvProxy.Model.Lifecycle
 open InvProxy Driver
 
 /-- suite `backoff`: `target <n>` ↦ un-jittered target in ns;  `loop <pattern of 0/1>` ↦ retry counts slept with -/
@@ -354,6 +355,12 @@ def appauthStep (s : AppAuth.St) : List String → AppAuth.St × String
     let e : AppAuth.AgentEp := if ep == "fetch" then .fetch else if ep == "respond" then .respond else .list
     let (st, _, s') := AppAuth.agentCall s c e (unhexD bid) (unhexD rid) [1]
     (s', toString st)
+  | ["lookup", u, path, live] =>
+    let liveIds := (live.splitOn ",").map unhexD
+    let st : Route.Store := { backends := s.backends.reverse, lastSeen := fun b => if liveIds.contains b then some 0 else some (-400000000000) }
+    match Route.lookup st (unhexD u) (unhexD path) 0 with
+    | some b => (s, hexOf b)
+    | none => (s, "404")
   | ["admin", adm, op] =>
     let c : AppAuth.Caller := { oauth := some [97], oauthAdmin := adm == "1", user := none, userAdmin := false }
     let o : AppAuth.AdminOp := if op == "list" then .listBackends else if op == "add" then .addBackend ⟨[101], [120], [97], [[47]]⟩ else .deleteBackend [101]
@@ -368,11 +375,18 @@ def apprelayStep (_ : Unit) : List String → Unit × String
     ((), toString (if Gen.store_inlineTest l then 0 else Gen.store_partCount (l - Gen.store_fieldByteLimit)))
   | _ => ((), "bad-op")
 
+/-- suite `lifecycle`: `gate <pattern>` | `monitor <threshold> <pattern>` (1 = passing check) ↦ number of checks until the gate opens / the agent exits -/
+def lifecycleStep (_ : Unit) : List String → Unit × String
+  | ["gate", p] => ((), match Lifecycle.gate (p.toList.map (· == '1')) with | some k => toString k | none => "none")
+  | ["monitor", t, p] => ((), match Lifecycle.monitor (Int.ofNat (natD t)) (p.toList.map (· == '1')) with | some k => toString k | none => "none")
+  | _ => ((), "bad-op")
+
 def main (args : List String) : IO UInt32 := do
   let stdin ← IO.getStdin
   let stdout ← IO.getStdout
   match args with
   | ["backoff"] => loop stdin stdout backoffStep (); return 0
+  | ["lifecycle"] => loop stdin stdout lifecycleStep (); return 0
   | ["apprelay"] => loop stdin stdout apprelayStep (); return 0
   | ["appauth"] => loop stdin stdout appauthStep { backends := [], reqs := [], resps := [] }; return 0
   | ["srw"] => loop stdin stdout srwStep (); return 0
